@@ -1,0 +1,56 @@
+//go:build verif
+
+// Verification hook for property C19 (add-only, compiled only with -tags verif).
+// VerifNodeView decodes a blob with the real decodeNode and lists its direct references the way a
+// reader of the trie sees them: hash references (with the length of the key step leading to them)
+// and directly attached value nodes. It deliberately does not share code with Sync.children, so
+// that the C19 model (which is fed with this view) and Sync.children are compared, not assumed equal.
+
+package trie
+
+import "github.com/youchainhq/go-youchain/common"
+
+// VerifRef is one direct reference of a decoded trie node.
+type VerifRef struct {
+	IsHash bool        // reference to another hashed node
+	Hash   common.Hash // valid if IsHash
+	Value  []byte      // the attached value if !IsHash
+	Step   int         // number of key nibbles consumed between the node and this reference
+}
+
+// VerifNodeView returns ok=false if the blob does not decode as a trie node; otherwise the direct
+// hash/value references in slot order (embedded child nodes are neither and are omitted, but counted).
+func VerifNodeView(hash common.Hash, blob []byte) (ok bool, refs []VerifRef, embedded int) {
+	n, err := decodeNode(hash[:], blob, 0)
+	if err != nil || n == nil {
+		return false, nil, 0
+	}
+	add := func(c node, step int) {
+		switch c := c.(type) {
+		case hashNode:
+			refs = append(refs, VerifRef{IsHash: true, Hash: common.BytesToHash(c), Step: step})
+		case valueNode:
+			refs = append(refs, VerifRef{Value: append([]byte{}, c...), Step: step})
+		case nil:
+		default:
+			embedded++
+		}
+	}
+	switch n := n.(type) {
+	case *shortNode:
+		add(n.Val, len(n.Key))
+	case *fullNode:
+		for i := range n.Children {
+			if n.Children[i] != nil {
+				add(n.Children[i], 1)
+			}
+		}
+	default:
+		return false, nil, 0
+	}
+	return true, refs, embedded
+}
+
+// VerifEmptyRoot / VerifEmptyState are the two hashes the sync treats as "nothing to fetch".
+func VerifEmptyRoot() common.Hash  { return emptyRoot }
+func VerifEmptyState() common.Hash { return emptyState }
